@@ -618,3 +618,86 @@ func ReuseTrap(seed uint64) *Case {
 		}
 	}
 }
+
+// DataWalk is a C12 sub-profile: passes over a few cache lines with loads into
+// dead registers and stores of registers that hold their initial value, so
+// that neither the path nor any address depends on the data: every data value
+// can be replaced (value-independence pairs) without changing what executes.
+func DataWalk(seed uint64) *Case {
+	for try := uint64(0); ; try++ {
+		r := rng.New(rng.Derive(seed, 0xda7a, try))
+		p := &Profile{Name: "data-walk", PoolMin: 3, PoolMax: 6, AddrRegsMax: 1, SubWord: true, MemSizes: []int{2048, 4096, 8192}}
+		b := NewBuilder(r, p)
+		base := 64 * r.Range(2, 12)
+		w, idx, cnt := walkRegs[0], loopRegs[0], loopRegs[1]
+		if r.Chance(1, 2) {
+			// stride mode: stores only, every store to a line of its own, one
+			// loop with nothing behind it: outside the region of every open
+			// finding (no same-line conflict, no wrong-path work, no load)
+			n := r.Range(6, 48)
+			per := r.Range(1, 3)
+			for base+64*(n*per+1) > b.ReadOnlyFrom {
+				n--
+			}
+			b.Emit(isa.Inst{Op: isa.LI, Rd: w, Imm: int32(base)})
+			b.Emit(isa.Inst{Op: isa.LI, Rd: cnt, Imm: int32(n)})
+			top := b.NewLabel()
+			b.Place(top)
+			for k := 0; k < per; k++ {
+				op := []isa.Op{isa.SB, isa.SH, isa.SW}[r.Intn(3)]
+				sz := op.AccessSize()
+				b.Emit(isa.Inst{Op: op, Rs2: b.Pool[r.Intn(len(b.Pool))], Rs1: w, Imm: int32(64*k + sz*r.Intn(64/sz))})
+			}
+			b.Emit(isa.Inst{Op: isa.ADDI, Rd: w, Rs1: w, Imm: int32(64 * per)})
+			b.Emit(isa.Inst{Op: isa.ADDI, Rd: cnt, Rs1: cnt, Imm: -1})
+			b.Emit(isa.Inst{Op: isa.BNEZ, Rs1: cnt, Label: top})
+			b.Prog.Labels["END"] = len(b.Prog.Insts)
+			b.Tag("data-walk-stride")
+			if cs := Finish(b, 5000, false); cs != nil {
+				return cs
+			}
+			continue
+		}
+		passes := r.Range(1, 3)
+		lines := r.Range(1, 3)
+		szlog := r.Intn(3)
+		elems := (64 >> uint(szlog)) * r.Range(1, lines)
+		if elems > 40 {
+			elems = 40
+		}
+		ops := [][2]isa.Op{{isa.LB, isa.SB}, {isa.LH, isa.SH}, {isa.LW, isa.SW}}[szlog]
+		outer := b.NewLabel()
+		inner := b.NewLabel()
+		b.Emit(isa.Inst{Op: isa.LI, Rd: cnt, Imm: int32(passes)})
+		b.Place(outer)
+		b.Emit(isa.Inst{Op: isa.LI, Rd: idx, Imm: 0})
+		b.Place(inner)
+		if szlog > 0 {
+			b.Emit(isa.Inst{Op: isa.SLLI, Rd: w, Rs1: idx, Imm: int32(szlog)})
+			b.Emit(isa.Inst{Op: isa.ADDI, Rd: w, Rs1: w, Imm: int32(base)})
+		} else {
+			b.Emit(isa.Inst{Op: isa.ADDI, Rd: w, Rs1: idx, Imm: int32(base)})
+		}
+		for k := r.Range(1, 4); k > 0; k-- {
+			off := int32(64 * r.Intn(lines+1))
+			if r.Chance(2, 5) {
+				b.Emit(isa.Inst{Op: ops[0], Rd: scratchRegs[r.Intn(2)], Rs1: w, Imm: off})
+			} else {
+				b.Emit(isa.Inst{Op: ops[1], Rs2: b.Pool[r.Intn(len(b.Pool))], Rs1: w, Imm: off})
+			}
+		}
+		b.Emit(isa.Inst{Op: isa.ADDI, Rd: idx, Rs1: idx, Imm: 1})
+		b.Emit(isa.Inst{Op: isa.SLTI, Rd: w, Rs1: idx, Imm: int32(elems)})
+		b.Emit(isa.Inst{Op: isa.BNEZ, Rs1: w, Label: inner})
+		b.Emit(isa.Inst{Op: isa.ADDI, Rd: cnt, Rs1: cnt, Imm: -1})
+		b.Emit(isa.Inst{Op: isa.BNEZ, Rs1: cnt, Label: outer})
+		if r.Bool() {
+			b.Emit(isa.Inst{Op: isa.RET})
+		}
+		b.Prog.Labels["END"] = len(b.Prog.Insts)
+		b.Tag("data-walk")
+		if cs := Finish(b, 5000, false); cs != nil {
+			return cs
+		}
+	}
+}
